@@ -175,17 +175,11 @@ func Forward(v ssa.Value) ssa.Value {
 			v = last
 			continue
 		}
-		// unique dominating store
-		var stores []*ssa.Store
-		if refs := cell.Referrers(); refs != nil {
-			for _, r := range *refs {
-				if st, ok := r.(*ssa.Store); ok && st.Addr == cell {
-					stores = append(stores, st)
-				}
-			}
-		}
-		if len(stores) == 1 && stores[0].Block().Dominates(b) && !cellCapturedBy(cell) {
-			v = stores[0].Val
+		// unique reaching store (cells whose address only feeds stores, loads and
+		// closures that run deferred)
+		// (for a captured variable inside a closure: stores made by the closure itself)
+		if val, ok := reachingStore(u, cell); ok {
+			v = val
 			continue
 		}
 		return v
